@@ -41,6 +41,8 @@ def jobs(tier, seed):
         # three levels: the recursive branches of the F and W cycles (stale scratch vectors on the intermediate level)
         add('h_fixed_point', 2, 0, 0, 0, 1, 1, 1, 0, 0, 0)
         add('h_fixed_point', 1, 1, 1, 1, 1, 1, 1, 0, 0, 0)
+        add('h_fixed_point', 0, 1, 0, 0, 1, 1, 1, 0, 0, 0)
+        add('h_fixed_point', 2, 2, 1, 0, 1, 1, 1, 0, 0, 0)
     else:
         for cyc in (0, 1, 2):
             for ex in (0, 1, 2, 3):
